@@ -66,7 +66,7 @@ VARIANTS = [
     V("proj-no-lower-clamp", ["C19"], A, "            if initparam < umin:\n                return (umin,)\n", "", "CLAMP", "__newton_point_on_curve", "lower clamp removed"),
     V("kv-or-nodeepcopy", ["C17", "C15"], K, "    def __or__(self, other: float):\n        return deepcopy(self).__ior__(other)", "    def __or__(self, other: float):\n        return self.__ior__(other)", "PURE", "KnotVector.__or__", "| mutates its left operand"),
     V("ikv-or-noguard", ["C17"], H, "        other = ImmutableKnotVector(other)\n        if self.limits != other.limits:\n            raise ValueError\n        all_knots = list(self.knots) + list(other.knots)", "        other = ImmutableKnotVector(other)\n        all_knots = list(self.knots) + list(other.knots)", "GATE-LIMITS", "ImmutableKnotVector.__or__", "union without limits guard"),
-    V("valid-one-sided", ["C01"], H, "        if node < umin or umax < node:\n            return False", "        if node < umin:\n            return False", "BOTH-LIMITS", "__valid_single", "upper limit not tested"),
+    V("valid-one-sided", ["C01"], H, "        if not (umin <= node <= umax):  # False also for a NaN, never ordered\n            return False", "        if not (umin <= node):\n            return False", "BOTH-LIMITS", "__valid_single", "upper limit not tested"),
     V("eval-swallow", ["C01"], C, "        self.knotvector.valid(nodes)\n        result = self.__eval(nodes)\n        return result[0] if onevalue else result", "        self.knotvector.valid(nodes)\n        try:\n            result = self.__eval(nodes)\n        except ValueError:\n            result = (None,) * len(nodes)\n        return result[0] if onevalue else result", "X-ESCAPE", "Curve.eval", "ValueError swallowed"),
     V("getitem-skip-validator", ["C02"], F, "        self.__valid_first_index(i)\n        self.__valid_second_index(j)\n        return FunctionEvaluator(self, i, j)", "        self.__valid_first_index(i)\n        return FunctionEvaluator(self, i, j)", "GATE-INDEX", "__getitem__", "second index not validated"),
     V("func-eval-wrong-degree", ["C02"], F, "        evaluator = self[:, self.degree]", "        evaluator = self[:, 0]", "DEP-MAY", "IndexableFunction.eval", "f(u) evaluated at degree 0"),
